@@ -62,6 +62,25 @@ theorem C08_repaired_mbr_none :
       | some _ => false | none => true) = true := by
   decide +kernel
 
+/-! ### C06 / C19: product with a zero base-rate entry and an operand that is well-formed only up to the
+    constructors' tolerance -/
+
+def pw0 : Opinion (XQ .f64) 2 := ⟨#v[q 1 2, q 1 4], q 1 4, #v[q 0 1, q 1 1]⟩
+/-- dogmatic, masses sum to 1 + eps/2 (accepted by the checked constructor) -/
+def pw1 : Opinion (XQ .f64) 2 := ⟨#v[q 1 2, .fin (1 / 2 + Fmt.eps .f64 / 2)], q 0 1, #v[q 1 2, q 1 2]⟩
+
+/-- both operands are accepted by `Opinion::try_new` … -/
+theorem C06_pinned_operands_accepted :
+    (match Opinion.tryNew pw0.b pw0.u pw0.a, Opinion.tryNew pw1.b pw1.u pw1.a with
+      | .ok _, .ok _ => true | _, _ => false) = true := by
+  decide +kernel
+
+/-- … but the pinned product divides the cell of zero base rate through: its numerator is slightly negative
+    (the second factor's projection is normalised by 1 + eps/2), so the "uncertainty" is -inf. -/
+theorem C06_pinned_product_minus_infinity :
+    (match (Pinned.product2RawBeforeZeroCellFix pw0 pw1).u with | .ninf => true | _ => false) = true := by
+  decide +kernel
+
 /-! ### Floating-point witnesses (kernel evaluation of Lean's IEEE-754 model of `Float`) -/
 
 def fb (bits : UInt64) : Float := Float.ofBits bits
